@@ -548,7 +548,12 @@ class WebSocket:
             sock_timeout = self.sock.gettimeout()
             self.sock.settimeout(timeout)
             start_time = time.time()
-            while timeout is None or time.time() - start_time < timeout:
+            while True:
+                if timeout is not None:
+                    remaining = timeout - (time.time() - start_time)
+                    if remaining <= 0:
+                        break
+                    self.sock.settimeout(remaining)
                 try:
                     frame = self.recv_frame()
                     if frame.opcode != ABNF.OPCODE_CLOSE:
